@@ -52,3 +52,12 @@ where
 
     (ri, n_overlaps)
 }
+
+// verification-only hooks (see /verif); compiled only under the guard cfg
+#[cfg(oxfordcontrol_clarabel_rs_verif)]
+pub(crate) mod verif_hooks_rs {
+    use crate::algebra::*;
+    pub(crate) fn number_of_overlaps_in_rows<T: FloatT>(A: &CscMatrix<T>) -> (Vec<usize>, Vec<T>) {
+        super::number_of_overlaps_in_rows(A)
+    }
+}
